@@ -63,9 +63,16 @@ func runBad(c *Ctx, prop string) {
 	n := c.N(220, 12000)
 	layouts := allLayouts
 	if prop == "C18" {
-		layouts = []layoutKind{layOneFile, layPerDef, layPartition, layGoRaw, layGoRawNL, layGoNested, laySameBase, layOutside, layCRLF, layCR, layMixedEnds}
+		layouts = []layoutKind{layOneFile, layPerDef, layPartition, layGoRaw, layGoRawNL, layGoNested, laySameBase, layOutside, layCRLF, layCR, layMixedEnds, layGoOneLit}
 	}
-	for i := 0; i < n; i++ {
+	// after the cross of fault classes and layouts: the faults the CONVERTER reports (after earlier definitions of the
+	// same source were converted), with every definition in one Go literal
+	convClasses := []string{"keyword-variable", "bogus-directive-argument", "omitempty-on-field", "malformed-directive", "directive-wrong-value-type"}
+	extra := 0
+	if prop == "C18" {
+		extra = c.N(4*len(convClasses), 40*len(convClasses))
+	}
+	for i := 0; i < n+extra; i++ {
 		r := c.Rng("bad", i)
 		seed := c.Seed*7919 + uint64(i)
 		bo := safeOpts
@@ -84,6 +91,9 @@ func runBad(c *Ctx, prop string) {
 		}
 		sortStrings(objs)
 		class := faultClasses[i%len(faultClasses)]
+		if i >= n {
+			class = convClasses[(i-n)%len(convClasses)]
+		}
 		// faults are inserted into non-subscription definitions (a second root field in a subscription
 		// would be a different fault)
 		var defs []gen.Def
@@ -107,7 +117,10 @@ func runBad(c *Ctx, prop string) {
 			c.Res.Count("skipped:class-not-applicable:" + class)
 			continue
 		}
-		lay := layouts[(i/len(faultClasses))%len(layouts)]
+		lay := layouts[(i/len(faultClasses)+3*(i%len(faultClasses)))%len(layouts)]
+		if i >= n {
+			lay = layGoOneLit
+		}
 		if prop == "C05" && i%9 == 4 {
 			// schema-side fault: the operations stay exactly those of the valid twin, a field they select is renamed in
 			// the SCHEMA (same file names, regenerated in place) — the operations no longer validate and must be rejected
@@ -285,6 +298,7 @@ func mergedModelCheck(c *Ctx, cs badCase, tout *GenOut, fail func(kind, class, w
 		fj := map[string]any{"name": name, "defs": []any{}, "lits": []any{}}
 		opsOf := func(text string) []any {
 			out := []any{}
+			text = strings.NewReplacer("\r\n", "\n", "\r", "\n").Replace(text) // every line-ending convention the lexer knows
 			for _, m := range opNameRe.FindAllStringSubmatch(text, -1) {
 				out = append(out, m[2])
 			}
